@@ -32,6 +32,8 @@ def rule_guard(ctx, f):
     gets = [b for b in f.bodies.values() if (b.get("impl") or {}).get("trait") == "object::Resolve" and b["id"].endswith("::get")
             and any(last_seg(F.callee_name(t)) == "get_or_compute" for bi, t in F.calls(b))]
     ctx.floor("C14-GUARD", len(gets), 1, "Resolve::get implementations that load through the cache")
+    from inline import inlined
+    gets = [inlined(f, b) for b in gets]        # a guard moved into a private helper (`self.enter(key)?`) is read in place
     for b in gets:
         cfg = CFG(b)
         cont = [(bi, t) for bi, t in F.calls(b) if last_seg(F.callee_name(t)) == "contains"]
@@ -47,8 +49,10 @@ def rule_guard(ctx, f):
             hit = sw["otherwise"] if 0 in arms else arms.get(1)
             miss = arms.get(0, sw["otherwise"])
             # the hit branch never reaches the load; push and load are only reachable through the miss branch
-            hit_reach = cfg.reachable_from(hit)
-            if not (set(load) & hit_reach) and not (set(push) & hit_reach) and all(cfg.dominates(tg, x) for x in load + push):
+            from cfg import ccp_reachable
+            hit_reach = ccp_reachable(b, hit)      # follows the variant of a Result through `?` (an inlined helper returns Err -> the Break arm)
+            from cfg import ccp_dominates
+            if not (set(load) & hit_reach) and not (set(push) & hit_reach) and all(cfg.dominates(tg, x) or ccp_dominates(b, tg, x) for x in load + push):
                 ok = True
         ctx.check(ok, "C14-GUARD", "%s#chain-test" % b["id"], "the recursion guard does not stop a repeated key before the load: a reference cycle through typed loads recurses without bound",
                   b["span"], detail="chain.contains(&key) -> Err before push / get_or_compute")
@@ -82,8 +86,14 @@ def rule_guard(ctx, f):
             for st in blk["stmts"]:
                 if st[0] == "assign" and st[2][0] == "binop" and st[2][1] in ("Ge", "Gt", "Lt", "Le") and d in (F.op_local(st[2][2]), F.op_local(st[2][3])) and \
                         (F.const_int(st[2][2]) is not None or F.const_int(st[2][3]) is not None) and blk["term"]["k"] == "switch":
-                    if all(cfg.dominates(tg, x) for x in push + load):
-                        okd = True
+                    from cfg import ccp_dominates
+                    if all(cfg.dominates(tg, x) or ccp_dominates(b, tg, x) for x in push + load):
+                        # one outcome of the test (the limit is reached) gets to neither the push nor the load
+                        from cfg import ccp_reachable
+                        sw2 = blk["term"]
+                        outs = {a[1] for a in sw2["arms"]} | {sw2.get("otherwise")}
+                        if any(o is not None and not (ccp_reachable(b, o) & set(push + load)) for o in outs):
+                            okd = True
         ctx.check(okd, "C14-GUARD", "%s#depth-limit" % b["id"], "nested typed loads have no depth limit: a chain of a few hundred distinct objects that load each other "
                   "(page -> parent -> parent ...) exhausts the stack", b["span"], detail="chain.len() >= MAX -> Err before push")
         # a failed load is re-tried only if the failure came out of the cache: the retry is dominated by a test of a flag that the
@@ -180,16 +190,23 @@ def run(ctx):
     ctx.rule("C14-REQ", "the facts elsewhere in the crate that the reviewed discharges of crash sites rest on (who constructs a value, who calls a helper, "
              "which length test precedes it) still hold - also for the sites filed under C01, since a crash on a hostile file violates both")
     nreq = 0
+    live = {}
+    for s0 in R.sites:
+        if s0.status == "open":
+            live.setdefault("%s:%s" % (s0.kind, s0.detail), set()).add(s0.body["id"])
     for e in R.table:
         if e.get("property") == "C14":
             continue        # reported with the site itself by C14-TAINT
+        # only entries that still discharge something: a rewrite that removes the construct needs no side condition any more
+        if not any(bid0 == e["fn"] or bid0.startswith(e["fn"] + "::") for bid0 in live.get(e["site"], ())):
+            continue
         for rq in e.get("requires", []):
             nreq += 1
             okq, whyq = census.requirement(f, rq, e)
             ctx.check(okq, "C14-REQ", "%s#%s:%s" % (e["fn"], e["site"], rq["kind"] + ":" + str(rq.get("fn") or rq.get("adt")) + (":" + str(rq.get("variant") or rq.get("const") or ""))),
                       "the reviewed reason for %s in %s (\"%s\") rests on a fact that no longer holds: %s" % (e["site"], e["fn"], e["reason"][:140], whyq),
                       (f.bodies.get(e["fn"]) or {}).get("span", ""), detail=whyq)
-    ctx.floor("C14-REQ", nreq, 10, "machine-checked side conditions")
+    ctx.floor("C14-REQ", nreq, 10, "machine-checked side conditions of live entries")
     # --- loops over file-derived ranges -----------------------------------------------------------------
     ctx.rule("C14-K4", "a loop over a numeric range whose end is a file number needs the end compared / bounded, or a body that consumes input")
     n4 = 0
